@@ -2,6 +2,7 @@ package vc
 
 import (
 	"go/types"
+	"sort"
 
 	"golang.org/x/tools/go/ssa"
 )
@@ -132,7 +133,7 @@ func (g *Gen) havocLoop(l *Loop, head *State, entrySt *State) {
 		l.Regions = regions
 		l.Checked = true
 	}
-	for b := range l.Blocks {
+	for _, b := range sortedBlocks(l.Blocks) {
 		for _, in := range b.Instrs {
 			switch in := in.(type) {
 			case *ssa.Alloc:
@@ -218,10 +219,10 @@ func (g *Gen) havocLoop(l *Loop, head *State, entrySt *State) {
 		newAlloc()
 		return
 	}
-	for h := range allHeaps {
+	for _, h := range sortedKeys(allHeaps) {
 		head.H[h] = g.freshConst(h, g.heaps[h])
 	}
-	for h := range rawHeaps {
+	for _, h := range sortedKeys(rawHeaps) {
 		head.H[h] = g.freshConst(h, g.heaps[h])
 	}
 	for _, r := range regions {
@@ -263,4 +264,14 @@ func (g *Gen) havocLoop(l *Loop, head *State, entrySt *State) {
 	if allocates {
 		newAlloc()
 	}
+}
+
+// sortedBlocks: the blocks of a loop in index order (deterministic generation)
+func sortedBlocks(m map[*ssa.BasicBlock]bool) []*ssa.BasicBlock {
+	bs := make([]*ssa.BasicBlock, 0, len(m))
+	for b := range m {
+		bs = append(bs, b)
+	}
+	sort.Slice(bs, func(i, j int) bool { return bs[i].Index < bs[j].Index })
+	return bs
 }
